@@ -166,6 +166,21 @@ def directives_removed_after_comments(P, site):
     return '_remove_line_directives' in order[i + 1:] and order[-1] == '_put_back_line_directives' and '_remove_line_directives' in order[:i]
 
 
+def int_after_isdigit(P, site):
+    """int(X) sits in an `and` chain after `X.isdigit()` on the same text"""
+    mn, fnode, cls = P.funcs[site.func]
+    arg = u(site.node.args[0]) if getattr(site.node, 'args', None) else None
+    for n in ast.walk(fnode):
+        if isinstance(n, ast.BoolOp) and isinstance(n.op, ast.And):
+            seen = False
+            for v in n.values:
+                if any(x is site.node for x in ast.walk(v)):
+                    return seen
+                if u(v) == '%s.isdigit()' % arg:
+                    seen = True
+    return False
+
+
 def lock_held_on_all_chains(P, site):
     """every call chain from the entry points to the function passes through a `with self._lock` block"""
     target = site.func
@@ -254,6 +269,7 @@ REVIEWED = [
     ('commontypes:resolve_common_type', 'assert', 'AssertionError', 'assert isinstance(result, model.BaseTypeByIdentity)',
      'every assignment to result is a model type or the first item of parse_type_and_quals', None),
     ('cparser:Parser._convert_pycparser_error', 'int', 'ValueError', 'int(match.group(1), 10)', 'the group is \\d+', int_after_digit_regex),
+    ('cparser:_remove_line_directives.replace', 'int', 'ValueError', 'int(s[6:])', 'evaluated only after s[6:].isdigit() in the same `and`', int_after_isdigit),
     ('cparser:_put_back_line_directives.replace', 'int', 'ValueError', 'int(s[6:])',
      "dominated by s.startswith('#line@'); such markers are only produced by _remove_line_directives", line_marker_guard),
     ('cparser:_put_back_line_directives.replace', 'raise', 'AssertionError', None,
@@ -276,6 +292,40 @@ REVIEWED = [
     ('model:StructOrUnion.finish_backend_type', 'assert', 'AssertionError', 'assert fsize == 0', 'only on the fixedlayout branch, which verify() alone sets', fixedlayout_branch_only),
     ('model:EnumType.build_baseinttype', 'shift', 'ValueError', None, 'shift counts are 8*sizeof(backend int types) - 0/1, never text-derived', sizes_come_from_backend),
 ]
+
+
+def array_length_bounded(run):
+    """a constant array length is compared with sys.maxsize before any type object (whose name formats the number,
+    and whose size the backend multiplies) is built from it; larger values end in CDefError"""
+    from ..pyast import sympath as sp
+    from ..pyast.index import cffi_mod
+    m = cffi_mod('cparser')
+    fn = m.find('Parser._get_type_and_quals')
+    branch = None
+    for n in ast.walk(fn):
+        if isinstance(n, ast.If) and u(n.test).replace(' ', '') == 'isinstance(typenode,pycparser.c_ast.ArrayDecl)':
+            branch = n
+    if branch is None:
+        raise AnalysisError('anchor vanished: the ArrayDecl branch of Parser._get_type_and_quals')
+    M = (1 << 63) - 1
+    made = []
+    ev = sp.Evaluator({'self._parse_constant': lambda a, k, e, f: sp.Lin('n'), 'self._get_type_and_quals': lambda a, k, e, f: (sp.Opq('itemtype'), 0),
+                       'model.ArrayType': lambda a, k, e, f: made.append(a) or sp.Opq('arraytype'), 'isinstance': lambda a, k, e, f: isinstance(a[0], str)})
+    ps = ev.block(branch.body, {'typenode': {'dim': {'kind': 'expr'}, 'type': sp.Opq('t')}, 'typedef_example': None, 'partial_length_ok': False, 'sys.maxsize': M, 'quals': 0}, [], [])
+    ths = sp.thresholds(ps)
+    ok = True
+    why = []
+    for val in (0, 5, M - 1, M, M + 1, 1 << 70):
+        hit = [p for p in ps if sp.holds(p, {'n': val}, {})]
+        if len(hit) != 1:
+            raise AnalysisError('Parser._get_type_and_quals: %d paths for an array length of %d' % (len(hit), val))
+        o = hit[0].outcome
+        rejected = o is not None and o[0] == 'raise' and o[1] in ('CDefError', 'FFIError')
+        if (val > M) != rejected:
+            ok = False
+            why.append('length %d: %s' % (val, 'rejected' if rejected else 'a type is built'))
+    run.ob('A/array-length-bounded-before-a-type-is-built', 'Parser._get_type_and_quals', 'length > sys.maxsize -> CDefError', ok, m.where(branch),
+           '; '.join(why) or 'thresholds %s' % sorted(ths))
 
 
 def python_side(run, thorough):
@@ -658,6 +708,7 @@ def check(run):
         'UTF-8 pointer before use and frees the buffer on all paths.')
     thorough = run.tier == 'thorough'
     P = python_side(run, thorough)
+    array_length_bounded(run)
     tu = backend_tu()
     backend_summary(run, P, tu)
     files = {'src/c/parse_c_type.c'}
